@@ -560,3 +560,97 @@ func (w *World) callsInto(in ssa.Instruction, p func(ssa.Instruction) bool) bool
 	}
 	return false
 }
+
+// rejectsThroughHelper: the rejecting condition conj is tested in a single-use helper of fn. It still rejects if
+// (a) from the helper's edge carrying it (helper parameters read as the call's arguments) no accepting return of the
+// helper is reachable, and (b) from the edges of fn on which the helper has refused no success exit of fn is reachable.
+func (c *Ctx) rejectsThroughHelper(fn *ssa.Function, succ func(*ssa.Function) func(ssa.Instruction, resolver) bool, conj []FP) (string, bool) {
+	w := c.W
+	for _, h := range w.familyOf(fn)[1:] {
+		idx, outcome := okOutcome(h)
+		if idx < 0 {
+			continue
+		}
+		cs := w.staticCallers(h)
+		if len(cs) != 1 {
+			continue
+		}
+		cl := cs[0]
+		okA := false
+		w.inCallerContext(h, func() {
+			var edges []EdgeRef
+			for _, b := range h.Blocks {
+				ifi, ok := b.Instrs[len(b.Instrs)-1].(*ssa.If)
+				if !ok {
+					continue
+				}
+				for si := 0; si < 2; si++ {
+					if !anyFact(condFacts(ifi.Cond, si == 0, idRes), conj[len(conj)-1]) {
+						continue
+					}
+					// the other conjuncts may hold in the helper or already at the call
+					dom := append(domFacts(b), domFacts(cl.Block())...)
+					all := true
+					for _, p := range conj[:len(conj)-1] {
+						if !anyFact(dom, p) {
+							all = false
+						}
+					}
+					if all {
+						edges = append(edges, EdgeRef{B: b, Succ: si, Known: domFacts(b)})
+					}
+				}
+			}
+			if len(edges) == 0 {
+				return
+			}
+			tgt := SuccessReturn(idx, nil)
+			if outcome == "true" {
+				tgt = TrueReturn(idx, nil)
+			}
+			r := RunCut(&CutSpec{Fn: h, StartEdges: edges, Target: tgt})
+			okA = !r.Capped && !r.Violated
+		})
+		if !okA {
+			continue
+		}
+		// (b) the refusal edges in fn
+		var res ssa.Value = cl
+		if h.Signature.Results().Len() > 1 {
+			res = nil
+			for _, r := range *cl.Referrers() {
+				if ex, ok := r.(*ssa.Extract); ok && ex.Index == idx {
+					res = ex
+				}
+			}
+		}
+		if res == nil {
+			continue
+		}
+		refused := "nonnil"
+		if outcome == "true" {
+			refused = "false"
+		}
+		var edges []EdgeRef
+		for _, b := range fn.Blocks {
+			ifi, ok := b.Instrs[len(b.Instrs)-1].(*ssa.If)
+			if !ok {
+				continue
+			}
+			for si := 0; si < 2; si++ {
+				if anyFact(condFacts(ifi.Cond, si == 0, idRes), func(f Fact) bool { return f.Op == refused && f.Y == nil && stripConv(f.X) == res }) {
+					edges = append(edges, EdgeRef{B: b, Succ: si, Known: domFacts(b)})
+				}
+			}
+		}
+		if len(edges) == 0 {
+			continue
+		}
+		r := RunCut(&CutSpec{Fn: fn, StartEdges: edges, Target: succ(fn)})
+		if r.Capped || r.Violated {
+			continue
+		}
+		return short(FuncName(h)), true
+	}
+	return "", false
+}
